@@ -177,6 +177,24 @@ def r15_descriptor_write(ctx, rule='R15'):
                 if any(isinstance(a, ast.Constant) and a.value == 'datapackage.json' for a in n.args):
                     if ctx.repo.enclosing_func(n) is not hd0:
                         others.append(n)
+    # ... and no data file can take that name: a resource whose path is the descriptor's name is refused (the dynamic path of a data
+    # file is the one writer the scan above cannot see)
+    reserved = False
+    for m_ in fd.methods.values():
+        for n_ in ast.walk(ctx.N(m_).node if not isinstance(m_.node, ast.Lambda) else m_.node):
+            if isinstance(n_, ast.If) and any(isinstance(x, ast.Raise) for st_ in n_.body for x in ast.walk(st_)):
+                t_ = n_.test
+                if isinstance(t_, ast.Compare) and len(t_.ops) == 1 and isinstance(t_.ops[0], (ast.Eq, ast.In)) and \
+                        any(isinstance(k, ast.Constant) and k.value == 'datapackage.json' for k in ast.walk(t_)) and 'path' in u(t_).lower():
+                    reserved = True
+            if isinstance(n_, ast.Assert) and isinstance(n_.test, ast.Compare) and len(n_.test.ops) == 1 and \
+                    isinstance(n_.test.ops[0], (ast.NotEq, ast.NotIn)) and 'path' in u(n_.test).lower() and \
+                    any(isinstance(k, ast.Constant) and k.value == 'datapackage.json' for k in ast.walk(n_.test)):
+                reserved = True
+    ctx.run.check(reserved, rule, fd.where, fd.qualname, "a resource whose path is 'datapackage.json' is refused",
+                  "nothing keeps a resource from being written under the descriptor's own name: the data file appears as "
+                  "datapackage.json before the data files are complete, and the descriptor written at the end replaces it (the finished "
+                  "dump lists 'datapackage.json' as a data file that holds the descriptor)")
     ctx.run.check(not others, rule, hd.where, hd.qualname, "single writer of 'datapackage.json'",
                   'another function writes datapackage.json: %s' % ', '.join(where(ctx.repo, o) for o in others))
     return hd
